@@ -71,6 +71,9 @@ func (o OneOfType) FieldName() string {
 type RPCExecutionPlan struct {
 	// Calls is a list of gRPC calls that are executed in the same group
 	Calls []RPCCall
+	// EntitiesAlias is the alias of the _entities root field, if the operation uses one.
+	// The calls are planned and merged under "_entities"; the alias is applied to the final response.
+	EntitiesAlias string
 	// TODO add mapping to the execution plan
 	// instead of the planner and the compiler?
 }
